@@ -17,6 +17,9 @@ type Gen struct {
 	Count func(string)
 	// MaxLen bounds slice lengths.
 	MaxLen int
+	// Lossy also generates the values of the property's domain that the XML formats cannot carry
+	// (known findings of C04): note dates with a sub-second part, non-nil empty discussions.
+	Lossy bool
 }
 
 // Strings needing every kind of XML escaping, multi-byte text, leading/trailing blanks.
@@ -122,7 +125,7 @@ func (g *Gen) Fill(v reflect.Value, path string, depth int) {
 		v.Set(reflect.ValueOf(g.Time(false)))
 		return
 	case dateType:
-		v.Set(reflect.ValueOf(osm.Date{Time: g.Time(true)}))
+		v.Set(reflect.ValueOf(osm.Date{Time: g.Time(!(g.Lossy && g.R.Intn(8) == 0))}))
 		return
 	case reflect.TypeOf(osm.Type("")):
 		v.SetString([]string{"node", "way", "relation", "node", "way", "relation", "", "bounds"}[g.R.Intn(8)])
@@ -214,8 +217,9 @@ func clearHeader(o *osm.OSM) {
 func (g *Gen) Normalize(x interface{}) {
 	switch v := x.(type) {
 	case *osm.Changeset:
-		if v.Discussion != nil && len(v.Discussion.Comments) == 0 {
-			// an empty discussion is omitted by ChangesetDiscussion.MarshalXML
+		if v.Discussion != nil && len(v.Discussion.Comments) == 0 && !(g.Lossy && g.R.Intn(3) == 0) {
+			// an empty discussion is omitted by ChangesetDiscussion.MarshalXML (known finding
+			// when kept): normally generated as nil
 			v.Discussion = nil
 		}
 	case *osm.OSM:
